@@ -253,3 +253,39 @@ func runCachedSeq(id string, parts []string) string {
 	}
 	return fmt.Sprintf("n=%d %s upq=%s", len(steps), strings.Join(out, " "), strings.Join(orDash(us), "|"))
 }
+
+// refusal: <id> cfg=<cfgspec with L=<limit>:<burst> and a unique X=..> l=<listener> qs=<hex>;<hex>;.. up=reply:<hex of a reply to the FIRST query>
+//   The queries are sent back to back from one client (one connection on stream listeners), so that the client limiter
+//   refuses the later ones.  Result: n=<k> r1=<st>:<hex|-> .. upn=<number of upstream queries seen for the first question>
+func init() { register("refusal", 8, runRefusal) }
+
+func runRefusal(id string, parts []string) string {
+	f := hx.Fields(parts)
+	env, err := getEnv(f["cfg"])
+	if err != nil {
+		return "HARNESS-ERROR env: " + strings.ReplaceAll(err.Error(), " ", "_")
+	}
+	defer putEnv(f["cfg"])
+	var out []string
+	var key string
+	for i, qh := range strings.Split(f["qs"], ";") {
+		q, err := hx.UnHex(qh)
+		if err != nil {
+			return "HARNESS-ERROR bad hex"
+		}
+		if i == 0 {
+			key = hx.QuestionKey(q)
+			env.SetBehaviour(key, parseBehaviour(f["up"]))
+		}
+		resps, st := env.Query(f["l"], q, "-", 3*time.Second, 30*time.Millisecond)
+		r := "-"
+		if len(resps) == 1 {
+			r = hx.Hex(resps[0])
+		} else if len(resps) > 1 {
+			st = fmt.Sprintf("n%d", len(resps))
+		}
+		out = append(out, fmt.Sprintf("r%d=%s:%s", i+1, st, r))
+	}
+	ups := env.TakeQueries(key)
+	return fmt.Sprintf("n=%d %s upn=%d", len(out), strings.Join(out, " "), len(ups))
+}
